@@ -25,6 +25,31 @@ NOTES = ("Technique family: model-based verification with explicit TLA+ specific
 NOT_APPLICABLE = {}
 
 CHECKS = {
+    "C01": {
+        "text": "RotoSem.tla is a definitional big-step interpreter of the language (fixed-width two's-complement integers as byte vectors in BitVec.tla - self-checked against native arithmetic on all 8-bit pairs - with wrapping + - *, truncating / and %, comparisons by the signedness of the type; IEEE floats on the exact fragment in Dyadic.tla; bool, char, if/match/while/for/blocks/return/recursive calls; literal typing incl. defaults and f32 rounding). Every native execution of a compiled script is recorded (program AST, host inputs, result, host-call log) and TLC accepts it iff RotoSem.Eval gives exactly that result and log (TraceSem.tla). Executions: one program per (type, operator) over all pairs of boundary operands for the 8 integer types, both float types and bool incl. compound assignment and unary minus; literal-typing programs; seeded random programs with nested expressions and control flow.",
+        "note": "Float arithmetic only where results are exactly representable; integer division by zero and MIN / -1 are outside the domain (C10); u64 literals above i64::MAX are rejected by roto's parser and not generated; program size/nesting bounded by the generator; the harness contains no arithmetic (values only re-encoded).",
+        "technique": "TLA+ definitional interpreter (RotoSem) + TLC trace validation of recorded native executions (operator matrix, literal matrix, seeded random programs)",
+    },
+    "C02": {
+        "text": "RotoSem.tla gives records, enums, options and strings value semantics (the environment maps names to values) and lists reference semantics (a heap shared by all copies; a for loop re-reads the list each iteration); == / != are structural. Seeded random programs declare random record/enum types (fields of every scalar width, strings, options, lists, nested types), copy values, mutate the original or the copy (whole value, nested field, list push, push from inside the iterating for loop), then observe every leaf of both through logging host calls; match with bindings, guards and _, and ? are generated. TLC accepts a recorded native execution iff its result and observation log equal RotoSem.Eval.",
+        "note": "Type shapes bounded (<= 4 fields, <= 3 variants, nesting <= 2); registered host aggregate types and the Rust boundary are C05/C15's business.",
+        "technique": "TLA+ definitional interpreter (RotoSem) + TLC trace validation of recorded native executions of copy/mutate/observe programs",
+    },
+    "C08": {
+        "text": "RotoSem.tla threads the ordered log of host calls through a strictly left-to-right big-step evaluation (operands, arguments with the receiver first, record fields, enum constructor arguments, list elements, f-string parts; && / || short-circuit; one arm of if/match with guards in source order; loop condition once more than the body; nothing after return or ? on None; x op= e reads x first). Seeded random programs whose sub-expressions at every position call logging host functions are run natively; TLC accepts a recorded execution iff the host-call sequence with argument values and the result equal RotoSem.Eval.",
+        "note": "Only documented evaluation orders are asserted; program size/nesting bounded by the generator.",
+        "technique": "TLA+ definitional interpreter (RotoSem, effect log) + TLC trace validation of recorded native executions",
+    },
+    "C12": {
+        "text": "Conc.tla models threads calling cloned handles (private frames, read-only constants, registered closures that update captured state atomically iff the capture is Sync), concurrent compile/drop under the registry lock, and the Register guard; TLC checks ResultOK, NoLostUpdate, LiveExact, CallValid, RegistryComplete, QuiescentOK and deadlock freedom for all interleavings of small thread programs, and exhibits the lost update when the guard is removed. Real runs (2-16 threads x calls on shared handles while other threads compile, call and drop) are recorded with per-thread sequence numbers and validated by TLC (TraceConc.tla): every result equals the single-threaded F(args), the closure hands out exactly 0..n-1, accounting balances at quiescence. 40 spec-enumerated safe-Rust probes (kind x route x Send/Sync class) must be rejected by rustc exactly when the specification's guard rejects.",
+        "note": "Real runs sample OS schedules, they do not enumerate them; a data race that changes no result, counter or total and never crashes is invisible; a handle with a !Send context type may be sent on its own by design.",
+        "technique": "TLA+ spec (Conc) + TLC exhaustive interleavings + TLC trace validation of real multi-threaded runs + spec-enumerated rustc compile-fail probes",
+    },
+    "C20": {
+        "text": "For every generated non-recursive script (scalars, records, enums, strings, host calls) a cfg-guarded hook lowers the script once, runs the LIR evaluator on that lowered program (panics caught) and hands the same lowered program to the JIT. TLC (LirAgree in TraceSem.tla) accepts each event iff the evaluator panicked or produced the same value and the same host-call sequence as the compiled code, and the compiled outcome equals RotoSem.Eval (three-way).",
+        "note": "main takes inputs through host functions and returns a scalar; an evaluator panic is an allowed outcome; about a fifth of the evaluator runs complete with a value (counted in the evidence).",
+        "technique": "TLA+ relation LirAgree over RotoSem + TLC trace validation of paired evaluator/JIT executions of the same lowered IR",
+    },
     "C04": {
         "text": "TypeGate.tla defines Maps (Rust type -> Roto type, recursively through Option/List/Result/Verdict, registered Val types by identity), Gate (same arity, every parameter and the return Maps-equal) and the filtermap rule (Verdict of its payload types, () for unused/bare sides, literals default to i32/f64). TLC enumerates complete verdict tables (860x860 single-position pairs at depth <=1 in return and parameter position, 575 filtermap forms, arity ladder 0..8 x name classes; thorough 1412^2/1196^2 with depth 2-3) and each table is replayed into the real crate: get_function::<F>(name) for every F of a compiled-in table of 3145 Rust fn types generated from TLC's universe; the handed-out set must equal TLC's set. Seeded random retrievals are recorded and validated by TLC in both directions (TraceTypeGate.tla: result = ok <=> Gate).",
         "note": "Rust side limited to the compiled table (arity <=7, depth <=3 with restricted leaf sets beyond depth 1); single-file scripts; error kind recorded, not asserted; smoke calls only for parameterless functions.",
